@@ -15,6 +15,16 @@ Pipeline (spec -> implementation replay, DESIGN.md 2.2 binding 1):
      at encode time, final position == buffer length.  Static sweeps
      (exhaustive 8/16-bit, all chars, every varint boundary, seeded random).
   5. Both feature configurations: default and `extras` (smallvec + bitvec).
+  6. Cross-type interning: handles of DIFFERENT Rust types with the SAME 128-bit content hash
+     (Interned<str> / Interned<String> / Interned<W(String)>; premise measured on the real hasher
+     by `codec_replay --mode hashes`) inside one encode session.  Codec.tla carries (type, hash)
+     per handle; TLC checks it as the code is (xreg/xfix hold) and under the mutation
+     SeenByHashOnly (FIFO and SelfContained violated), generates complete behaviours over the
+     cross-type pool (CodecGenBehX*.cfg: both orders, all three types, inside an Interned<Dyn>,
+     decode with originals alive / dropped / fresh interner), and CodecGen enumerates cross-type
+     STRUCTURE (handle leaves with handle partners under every constructor, tuple class "eq"),
+     replayed under the FIFO shapes that contain a restart / drop-originals step
+     (CodecShapesAux.cfg).
 """
 import concurrent.futures as cf
 import json
@@ -80,7 +90,13 @@ def classify(fail, known, beh=None):
         got = fail.get("got") or ""
         if kind != "process_abort" or "memory allocation" in got or "capacity overflow" in got or "BitVec" in got:
             return "KF_BITVEC"
-    if "KF_INTERN_REF" in known and kind == "decode_panic" and INTERN_MSG in (fail.get("got") or ""):
+    # KF_INTERN_REF is the failure of a reference whose inline copy WAS written and decoded earlier in the same
+    # top-level value (and dropped again).  The harness reports for the handle that panicked whether an earlier
+    # occurrence of the same (type, hash) exists in that value (fail.ref.inline_before).  A reference without an
+    # inline copy of its own type (e.g. only a handle of ANOTHER type with the same hash precedes it) is a
+    # different failure and is never attributed.
+    if "KF_INTERN_REF" in known and kind == "decode_panic" and INTERN_MSG in (fail.get("got") or "") \
+            and (fail.get("ref") or {}).get("inline_before") is True:
         # (a) complete interning behaviour: the as-is model (Codec.tla, AllowUnregistered,
         #     ~PinDecoded) predicts the failure at exactly this step
         if fail.get("model_fail") is True:
@@ -106,9 +122,12 @@ CORE_LEAVES = ["U8", "U64", "I32", "String", "Unit", "IString"]
 CORE_UN = ["Option", "Vec", "HashSet", "Box", "Pair", "Interned", "Ge", "Range", "Array3", "Bound"]
 CORE_BIN = ["Result", "HashMap"]
 PARTNERS = [["U8", "b1"], ["String", "ascii"]]
+# cross-type interning: leaf handle types whose equal text has the SAME content hash, paired with each other
+X_LEAVES = ["IStr", "IString", "IW"]
+X_PARTNERS = [["IString", "intern"], ["IStr", "intern"], ["IW", "intern"]]
 
 
-def gen_config(U, tier):
+def gen_config(U, tier, xtype=False):
     extras = U["extras"]
     leaf = {l["n"]: l for l in U["leaves"]}
     un = {u["n"]: u for u in U["un"]}
@@ -132,6 +151,25 @@ def gen_config(U, tier):
     W_rep = {"un": K(un, rep_un), "bin": K(bn, REP_BIN), "tup": [2, 3]}
     W_core = {"un": K(un, CORE_UN), "bin": K(bn, CORE_BIN), "tup": [2]}
     P2, P1 = PARTNERS, PARTNERS[:1]
+    if xtype:
+        # the handle under test next to a handle of ANOTHER type with the same class (= same text = same hash):
+        # tuples with class "eq", maps (first key / first value), Gs2, Ge2::B, and everything around them
+        W_x = {"un": K(un, all_un), "bin": K(bn, all_bin), "tup": [2, 3]}
+        TC = ["-", "eq"]
+        budgets = [
+            {"name": "x1 handle leaves (all classes) x all ctors, handle partners", "b": 1, "leaves": L(X_LEAVES, True),
+             "wraps": [W_x], "partners": X_PARTNERS, "tupclasses": TC},
+            {"name": "x2 handle leaves x rep ctors^2, handle partners", "b": 2, "leaves": L(X_LEAVES, False),
+             "wraps": [W_rep, W_rep], "partners": X_PARTNERS, "tupclasses": TC},
+        ]
+        if tier == "thorough":
+            budgets += [
+                {"name": "x2 handle leaves x all ctors^2, handle partners", "b": 2, "leaves": L(X_LEAVES, False),
+                 "wraps": [W_x, W_x], "partners": X_PARTNERS, "tupclasses": TC},
+                {"name": "x3 handle leaves x core ctors^3, handle partners", "b": 3, "leaves": L(X_LEAVES, False),
+                 "wraps": [W_core, W_core, W_core], "partners": X_PARTNERS[:2], "tupclasses": TC},
+            ]
+        return {"budgets": budgets}
     budgets = [
         {"name": "d0 all leaves, all classes", "b": 0, "leaves": L(all_leaves, True), "wraps": [], "partners": P2},
         {"name": "d1 all ctors x all leaves (all classes)", "b": 1, "leaves": L(all_leaves, True), "wraps": [W_all], "partners": P2},
@@ -168,8 +206,8 @@ def tlc_lines(out):
                 continue
 
 
-def gen_structure(wd, U, tier, tag):
-    cfg = gen_config(U, tier)
+def gen_structure(wd, U, tier, tag, xtype=False):
+    cfg = gen_config(U, tier, xtype)
     cfgp = os.path.join(wd, f"gencfg_{tag}.json")
     json.dump(cfg, open(cfgp, "w"))
     casesp = os.path.join(wd, f"cases_{tag}.ndjson")
@@ -324,21 +362,29 @@ def build_bins(wd):
 
 
 def model_check(wd, quick):
-    """Codec.tla exhaustively under the three switch settings."""
+    """Codec.tla exhaustively under the three switch settings (one handle type), and over the cross-type
+    handle pool: as the code is (seen set and table keyed by (type, hash)) with registered originals (xreg)
+    and with unregistered originals + repair (xfix), and under the mutation SeenByHashOnly (xmut, xmutsc)."""
     res = {}
+    xfix = "CodecMC_xfix" if quick else "CodecMC_xfix3"
 
     def one(cfg):
         return cfg, vp.tlc("CodecMC", cfg=cfg + ".cfg", workers=2, timeout=900, xmx="3g", coverage=(cfg == "CodecMC_fix"),
                            metadir=os.path.join(wd, "meta", cfg), check_ok=True)
-    with cf.ThreadPoolExecutor(max_workers=3) as ex:
-        for cfg, r in ex.map(one, ["CodecMC_reg", "CodecMC_fix", "CodecMC_asis"]):
+    with cf.ThreadPoolExecutor(max_workers=4) as ex:
+        for cfg, r in ex.map(one, ["CodecMC_fix", xfix, "CodecMC_xreg", "CodecMC_reg", "CodecMC_asis", "CodecMC_xmut", "CodecMC_xmutsc"]):
             res[cfg] = r
-    for cfg in ("CodecMC_reg", "CodecMC_fix"):
+    for cfg in ("CodecMC_reg", "CodecMC_fix", "CodecMC_xreg", xfix):
         if not res[cfg]["ok"]:
             raise vp.ToolError(f"{cfg}: the model violates its invariants:\n{res[cfg]['out'][-3000:]}")
     if "FIFO" not in res["CodecMC_asis"]["invariant_violated"]:
         raise vp.ToolError("CodecMC_asis: expected the as-is model to violate FIFO (known finding class):\n"
                            + res["CodecMC_asis"]["out"][-3000:])
+    # anti-vacuity of the invariants w.r.t. the (type, hash) key: the mutated model must violate them
+    if "FIFO" not in res["CodecMC_xmut"]["invariant_violated"]:
+        raise vp.ToolError("CodecMC_xmut: the model with SeenByHashOnly must violate FIFO:\n" + res["CodecMC_xmut"]["out"][-3000:])
+    if "SelfContained" not in res["CodecMC_xmutsc"]["invariant_violated"]:
+        raise vp.ToolError("CodecMC_xmutsc: the model with SeenByHashOnly must violate SelfContained:\n" + res["CodecMC_xmutsc"]["out"][-3000:])
     cov = vp.tlc_coverage(res["CodecMC_fix"]["out"])
     never = [a for a in ("Encode", "Decode", "Restart", "DropOrig", "DropDec", "Emit") if cov.get(a, (0, 0))[1] == 0]
     if never:
@@ -347,31 +393,46 @@ def model_check(wd, quick):
         "registered_originals_as_is": {"states": res["CodecMC_reg"]["distinct"], "transitions": res["CodecMC_reg"]["generated"], "result": "invariants hold"},
         "unregistered_allowed_with_repair": {"states": res["CodecMC_fix"]["distinct"], "transitions": res["CodecMC_fix"]["generated"], "result": "invariants hold"},
         "unregistered_allowed_as_is": {"states": res["CodecMC_asis"]["distinct"], "result": "FIFO violated (KF_INTERN_REF class), counterexample replayed on the code"},
+        "cross_type_registered_as_is": {"states": res["CodecMC_xreg"]["distinct"], "transitions": res["CodecMC_xreg"]["generated"], "result": "invariants hold"},
+        "cross_type_unregistered_allowed_with_repair": {"cfg": xfix, "states": res[xfix]["distinct"], "transitions": res[xfix]["generated"], "result": "invariants hold"},
+        "cross_type_mutation_SeenByHashOnly": {"states": res["CodecMC_xmut"]["distinct"],
+                                               "result": "FIFO violated (xmut: encode (String a, str a), drop originals / fresh interner, decode fails); "
+                                                         "SelfContained violated (xmutsc: a reference without an inline copy of its type)"},
         "action_coverage": {a: list(v) for a, v in cov.items()},
     }
 
 
-def gen_shapes(wd):
-    r = vp.tlc("CodecMC", cfg="CodecShapes.cfg", workers=1, timeout=300, metadir=os.path.join(wd, "meta", "shapes"))
+def gen_shapes(wd, aux=False):
+    """FIFO shapes printed by Codec.tla over a pool without handles.  aux: the shapes that contain one
+    auxiliary step before a decode (fresh interner on the plugin / originals dropped): under these a
+    value must be decodable from its own bytes alone."""
+    name = "CodecShapesAux" if aux else "CodecShapes"
+    r = vp.tlc("CodecMC", cfg=name + ".cfg", workers=1, timeout=300, metadir=os.path.join(wd, "meta", name))
     if not r["ok"]:
-        raise vp.ToolError("CodecShapes failed:\n" + r["out"][-3000:])
+        raise vp.ToolError(name + " failed:\n" + r["out"][-3000:])
     shapes = []
     for s in tlc_lines(r["out"]):
         b = json.loads(s)
+        ops = [o["op"] for o in b["ops"]]
+        if aux:
+            k = next((i for i, o in enumerate(ops) if o in ("restart", "droporig")), None)
+            if k is None or "dec" not in ops[k:]:
+                continue
         shapes.append({"id": len(shapes) + 1, "k": len(b["pool"]), "ops": b["ops"]})
     if not shapes:
         raise vp.ToolError("no FIFO shapes generated")
-    p = os.path.join(wd, "shapes.json")
+    p = os.path.join(wd, "shapes_aux.json" if aux else "shapes.json")
     json.dump(shapes, open(p, "w"))
     return p, shapes, r
 
 
-def gen_interning(wd, asis=True):
+def gen_interning(wd, asis=True, cfg=None, out="interning.ndjson", workers=4):
     # the mechanism model follows the code: as is while KF_INTERN_REF is open, with the repair once it is fixed
-    r = vp.tlc("CodecMC", cfg="CodecGenBeh.cfg" if asis else "CodecGenBehFix.cfg", workers=4, timeout=900, xmx="4g", metadir=os.path.join(wd, "meta", "genbeh"))
+    cfg = cfg or ("CodecGenBeh.cfg" if asis else "CodecGenBehFix.cfg")
+    r = vp.tlc("CodecMC", cfg=cfg, workers=workers, timeout=900, xmx="4g", metadir=os.path.join(wd, "meta", "genbeh_" + cfg))
     if not r["ok"]:
-        raise vp.ToolError("CodecGenBeh failed:\n" + r["out"][-3000:])
-    p = os.path.join(wd, "interning.ndjson")
+        raise vp.ToolError(cfg + " failed:\n" + r["out"][-3000:])
+    p = os.path.join(wd, out)
     n = 0
     distinct = set()
     with open(p, "w") as f:
@@ -379,7 +440,12 @@ def gen_interning(wd, asis=True):
             b = json.loads(s)
             kids = {str(i + 1): k for i, k in enumerate(b["kids"])}
             reg = {str(i + 1): x for i, x in enumerate(b["reg"])}
-            pool = [{"h": {"top": pv, "kids": kids, "reg": reg}} for pv in b["pool"]]
+            hs = {"kids": kids, "reg": reg}
+            if any(t != "D" for t in b.get("ty", [])):
+                # typed handles: Rust type and content-hash class per handle id
+                hs["ty"] = {str(i + 1): x for i, x in enumerate(b["ty"])}
+                hs["hash"] = {str(i + 1): x for i, x in enumerate(b["hash"])}
+            pool = [{"h": dict(hs, top=pv)} for pv in b["pool"]]
             for o in b["ops"]:
                 if "x" in o and "sr" in o["x"]:
                     o["x"]["sr"] = "".join(o["x"]["sr"])
@@ -457,20 +523,34 @@ def run(tier, seed):
     known = known_map()
     verdict = vp.Verdict(PID)
     base, extra = build_bins(wd)
+    t_build = time.time() - t0
     U = json.loads(vp.run([extra, "--mode", "universe"]).stdout)
     Ub = json.loads(vp.run([base, "--mode", "universe"]).stdout)
+    # premise of the cross-type cases, measured with the interner's real hasher
+    premise = json.loads(vp.run([base, "--mode", "hashes"]).stdout)
+    premise_ok = bool(premise.get("equal_hash_str_String_W")) and bool(premise.get("distinct_type_ids"))
+    if not premise_ok:
+        vp.log("[C12] NOTE: str / String / W(String) no longer have equal content hashes under distinct type ids: "
+               "the cross-type interning cases do not collide any more (see evidence cross_type.premise)")
 
     # --- TLC: model check + generators (concurrently) ---------------------
+    t_tlc0 = time.time()
     with cf.ThreadPoolExecutor(max_workers=4) as ex:
+        f_st = ex.submit(gen_structure, wd, U, tier, "extras")
+        f_in = ex.submit(gen_interning, wd, "KF_INTERN_REF" in known)
         f_mc = ex.submit(model_check, wd, quick)
         f_sh = ex.submit(gen_shapes, wd)
-        f_in = ex.submit(gen_interning, wd, "KF_INTERN_REF" in known)
-        f_st = ex.submit(gen_structure, wd, U, tier, "extras")
+        f_sx = ex.submit(gen_shapes, wd, True)
+        f_ix = ex.submit(gen_interning, wd, True, "CodecGenBehX.cfg" if quick else "CodecGenBehX3.cfg", "interning_x.ndjson", 2)
+        f_cx = ex.submit(gen_structure, wd, U, tier, "xtype", True)
         mc = f_mc.result()
         shapesp, shapes, r_sh = f_sh.result()
+        xshapesp, xshapes, r_sx = f_sx.result()
         interp, n_inter, n_inter_distinct, r_in = f_in.result()
+        xinterp, n_xinter, n_xinter_distinct, r_ix = f_ix.result()
         casesp, n_cases, n_emitted, gen_stats = f_st.result()
-    t_tlc = time.time() - t0
+        xcasesp, n_xcases, _, xgen_stats = f_cx.result()
+    t_tlc = time.time() - t_tlc0
 
     # --- replay on the real code, both feature configurations --------------
     counters = {"model_drift": 0}
@@ -481,22 +561,26 @@ def run(tier, seed):
     totals = {}
     samples = []
 
-    def job_cases(tag, binp, path, features):
-        bad, smp, tot = run_cases(binp, path, shapesp, os.path.join(wd, f"out_{tag}.ndjson"), seed, wd, tag)
+    def job_cases(tag, binp, path, features, shp=None):
+        bad, smp, tot = run_cases(binp, path, shp or shapesp, os.path.join(wd, f"out_{tag}.ndjson"), seed, wd, tag)
         return tag, features, bad, smp, tot
 
-    def job_beh(tag, binp, features):
-        bad, summ = run_beh(binp, interp, os.path.join(wd, f"out_{tag}.ndjson"), seed)
+    def job_beh(tag, binp, features, inp=None):
+        bad, summ = run_beh(binp, inp or interp, os.path.join(wd, f"out_{tag}.ndjson"), seed)
         return tag, features, bad, [], {"behaviours": summ["behaviours"], "steps": summ["steps"], "encodes": 0, "decodes": 0,
-                                        "bytes": 0, "aborts": 0, "cases": 0}
+                                        "bytes": 0, "aborts": 0, "cases": 0, "drifting": summ.get("drifting", 0)}
 
     jobs = [(job_cases, ("structure_extras", extra, robust, "extras")),
             (job_cases, ("structure_default", base, cases_base, "default")),
             (job_beh, ("interning_extras", extra, "extras")),
-            (job_beh, ("interning_default", base, "default"))]
+            (job_beh, ("interning_default", base, "default")),
+            # cross-type handles: complete behaviours (both binaries: small) and structure under the aux shapes
+            (job_beh, ("xtype_interning_extras", extra, "extras", xinterp)),
+            (job_beh, ("xtype_interning_default", base, "default", xinterp)),
+            (job_cases, ("xtype_structure_extras", extra, xcasesp, "extras", xshapesp))]
     if n_frag:
         jobs.append((job_cases, ("structure_extras_bitvec", extra, fragile, "extras")))
-    with cf.ThreadPoolExecutor(max_workers=5) as ex:
+    with cf.ThreadPoolExecutor(max_workers=6) as ex:
         futs = [ex.submit(fn, *a) for fn, a in jobs]
         f_sw = [ex.submit(sweep, extra, os.path.join(wd, "sweep_extras.ndjson"), seed, 20000 if quick else 400000),
                 ex.submit(sweep, base, os.path.join(wd, "sweep_default.ndjson"), seed + 1, 20000 if quick else 400000)]
@@ -522,20 +606,35 @@ def run(tier, seed):
 
     # --- evidence -----------------------------------------------------------
     n_dec = sum(t["decodes"] for t in totals.values())
-    inter_steps = totals["interning_extras"]["steps"] + totals["interning_default"]["steps"]
+    inter_steps = sum(totals[t]["steps"] for t in ("interning_extras", "interning_default", "xtype_interning_extras", "xtype_interning_default"))
     impls = impl_coverage(U)
     one_inter = json.loads(open(interp).readline())
+    # a cross-type sample: a value with two equal-hash handles of different types decoded behind a restart / droporig
+    one_x = None
+    for line in open(xinterp):
+        b = json.loads(line)
+        ops = [o["op"] for o in b["ops"]]
+        k = next((i for i, o in enumerate(ops) if o in ("restart", "droporig")), None)
+        if k is not None and "dec" in ops[k:]:
+            one_x = b
+            break
+    x_aux_kinds = {}
+    for sh in xshapes:
+        for o in sh["ops"]:
+            if o["op"] in ("restart", "droporig"):
+                x_aux_kinds[o["op"]] = x_aux_kinds.get(o["op"], 0) + 1
     coverage = {
         "evaluations": int(n_dec + inter_steps + sweep_vals),
-        "distinct_nontrivial": int(n_cases + n_inter_distinct),
+        "distinct_nontrivial": int(n_cases + n_inter_distinct + n_xcases + n_xinter_distinct),
         "rule": "a case = (type term, class vector) enumerated by TLC from CodecGen.tla (terms closed under the harness' "
                 "constructor table to nesting depth 3, each-choice class coverage: at most one node off its default class), "
                 "counted after de-duplication; plus the distinct complete interning behaviours of Codec.tla (handle trees x "
-                "registration x op sequence). Every case is non-trivial by construction: it is concretised to a value, written "
+                "registration x op sequence), the cross-type structure cases (handle leaves paired with handle partners of another "
+                "type and the same content hash) and the cross-type interning behaviours. Every case is non-trivial by construction: it is concretised to a value, written "
                 "back to back with two other cases into one stream by one encoder following a FIFO shape generated by TLC from "
                 "Codec.tla, and read back by one decoder; each step is compared with the model's FIFO state (value, byte offset). "
                 "evaluations = top-level decode steps judged + interning behaviour steps + statically typed sweep values.",
-        "samples": samples[:2] + [{"interning_behaviour": one_inter},
+        "samples": samples[:2] + [{"interning_behaviour": one_inter}, {"cross_type_interning_behaviour": one_x},
                                   {"sweep": {k: sweeps[0][2][k] for k in ("type", "n", "bytes", "nfail")}}],
         "exhaustive": False,
         "tlc_structure_generation": gen_stats,
@@ -548,6 +647,23 @@ def run(tier, seed):
         "interning_behaviours": n_inter,
         "interning_generator_states": r_in["distinct"],
         "model_checking_of_Codec_tla": mc,
+        "cross_type": {
+            "premise": premise,
+            "premise_holds": premise_ok,
+            "types": {"S": "Interned<str>", "T": "Interned<String>", "W": "Interned<vh::codec::W> (derived new-type of String)",
+                      "D": "Interned<Dyn> holding S and T in its content"},
+            "interning_behaviours": n_xinter,
+            "interning_generator_cfg": "CodecGenBehX.cfg" if quick else "CodecGenBehX3.cfg",
+            "interning_generator_states": r_ix["distinct"],
+            "structure_cases": n_xcases,
+            "tlc_structure_generation": xgen_stats,
+            "aux_shapes": len(xshapes),
+            "aux_shape_kinds": x_aux_kinds,
+            "aux_shape_states": r_sx["distinct"],
+            "decode_contexts": ["same interner, originals alive", "originals dropped (droporig)", "fresh interner (restart)"],
+            "oracles": ["decoded value == FIFO head", "decoder position == end offset recorded at encode", "final position == buffer length",
+                        "(drift) inline/reference pattern == model", "(drift) equal (type, content) handles of one decoded value share one allocation"],
+        },
         "replay_totals": totals,
         "sweeps": [{"features": f, "types": len(sw), "values": sum(r["n"] for r in sw),
                     "exhaustive_domains": ["u8", "i8", "u16", "i16", "bool", "char"]} for f, sw in zip(("extras", "default"), sweeps)],
@@ -558,6 +674,7 @@ def run(tier, seed):
         "unattributed_failures": counters.get("unattributed_failures", 0),
         "impls": impls,
         "features": {"extras(smallvec+bitvec)": True, "default": True},
+        "wall_build_s": round(t_build, 1),
         "wall_tlc_s": round(t_tlc, 1),
     }
     vp.write_evidence(PID, tier, seed, "exploration", coverage, time.time() - t0, len(verdict.violations),
@@ -593,7 +710,8 @@ def impl_coverage(U):
         "Range RangeInclusive RangeFrom RangeTo RangeToInclusive RangeFull": "Range RangeInclusive RangeFrom RangeTo RangeToInclusive RangeFull",
         "derive: unit/named/tuple struct, enum (unit/tuple/named variants, 132 variants), generic struct/enum, #[serialize(skip)]":
             "UnitStruct Named TupleStruct Enum BigEnum Gs Ge GSkip Gs2 Ge2",
-        "Interned<T>, Interned<str>, Interned<[T]>, Interned<Path>, WiredInterned": "Interned IString IStr InternedSlice IPath + Codec.tla interning behaviours",
+        "Interned<T>, Interned<str>, Interned<[T]>, Interned<Path>, WiredInterned": "Interned IString IW IStr InternedSlice IPath + Codec.tla interning behaviours "
+                                                                                    "(one type; and cross-type: equal content hash under Interned<str> / Interned<String> / Interned<W>)",
         "SmallVec<A> (feature smallvec)": "SmallVec2",
         "BitVec<T,O> (feature bitvec)": "BvUsizeLsb0 BvU8Lsb0 BvU8Msb0 BvU16Lsb0 BvU32Msb0 BvU64Lsb0",
     }
@@ -723,9 +841,51 @@ def selftest(seed):
     # (3) signature specificity
     ok &= classify({"kind": "value_mismatch", "ctors": ["BvU8Lsb0", "Vec"]}, known) is None
     ok &= classify({"kind": "value_mismatch", "ctors": ["U64"]}, known) is None
-    ok &= classify({"kind": "decode_panic", "got": "other panic", "model_fail": True, "ctors": ["Interned"]}, known) is None
-    # (4) spec mutation: the as-is switch setting must violate FIFO in TLC, the repaired one must not
+    ok &= classify({"kind": "decode_panic", "got": "other panic", "model_fail": True, "ctors": ["Interned"], "ref": {"inline_before": True}}, known) is None
+    ok &= classify({"kind": "decode_panic", "got": INTERN_MSG, "model_fail": True, "ctors": ["Interned"], "ref": {"inline_before": False}}, known) is None
+    ok &= ("KF_INTERN_REF" not in known) or classify({"kind": "decode_panic", "got": INTERN_MSG, "model_fail": True, "ctors": ["Interned"], "ref": {"inline_before": True}}, known) == "KF_INTERN_REF"
+    # (4) spec mutation: the as-is switch setting must violate FIFO in TLC, the repaired one must not; with the
+    #     seen set keyed by the bare hash (SeenByHashOnly) TLC must find the round-trip violation over the
+    #     cross-type pool, with the (type, hash) key it must not (model_check raises otherwise)
     mc = model_check(wd, True)
     print(f"selftest {PID}: Codec.tla as-is: {mc['unregistered_allowed_as_is']['result']}; with repair: {mc['unregistered_allowed_with_repair']['result']}")
+    print(f"selftest {PID}: Codec.tla cross-type, (type, hash) key: {mc['cross_type_registered_as_is']['result']} "
+          f"({mc['cross_type_registered_as_is']['states']} states); mutation SeenByHashOnly: {mc['cross_type_mutation_SeenByHashOnly']['result']}")
+    # (5) cross-type binding.  (5a) a behaviour of the MUTATED model that predicts a decode failure, replayed on the
+    #     real code: the code does not have the mutation, so it must succeed, and the harness must see that it
+    #     differs from the prediction (inline/reference pattern read off the tag bytes, predicted failure)
+    premise = json.loads(vp.run([base, "--mode", "hashes"]).stdout)
+    print(f"selftest {PID}: equal text hashes equal as str/String/W on the real hasher: {premise['equal_hash_str_String_W']}, "
+          f"distinct type ids: {premise['distinct_type_ids']}")
+    ok &= bool(premise["equal_hash_str_String_W"]) and bool(premise["distinct_type_ids"])
+    mutp, nm, _, _ = gen_interning(wd, True, "CodecGenBehXmut.cfg", "interning_xmut.ndjson", 1)
+    # (one with dropped originals: that behaviour is complete in the generator of (5b) as well)
+    mcex = next((b for b in map(json.loads, open(mutp)) if any(o["op"] == "dec" and o["x"]["fail"] for o in b["ops"])
+                 and any(o["op"] == "droporig" for o in b["ops"])), None)
+    ok &= mcex is not None
+    r7 = _run_one(base, mcex, wd, seed, "xmut_cex")
+    print(f"selftest {PID}: behaviour of the mutated model ({[o['op'] for o in mcex['ops']]}, pool value {mcex['pool'][mcex['ops'][0]['v'] - 1]['h']['top']}) "
+          f"on the real code -> ok={r7['ok']} drift={[x['what'] for x in r7['drift']]}")
+    ok &= bool(r7["ok"]) and any("pattern at encode" in x["what"] for x in r7["drift"]) and any("predicted a decode failure" in x["what"] for x in r7["drift"])
+    # (5b) the same behaviour from the model as the code is: accepted without drift
+    xp, nx, _, _ = gen_interning(wd, True, "CodecGenBehX.cfg", "interning_x.ndjson", 2)
+    shape = [(o["op"], o.get("v", o.get("x", {}).get("v"))) for o in mcex["ops"]]
+    twin = next((b for b in map(json.loads, open(xp)) if [(o["op"], o.get("v", o.get("x", {}).get("v"))) for o in b["ops"]] == shape), None)
+    ok &= twin is not None
+    r8 = _run_one(base, twin, wd, seed, "x_twin")
+    print(f"selftest {PID}: the same ops from the (type, hash) model -> ok={r8['ok']} drift={r8['drift']} "
+          f"sr={[s_.get('sr') for s_ in r8['steps'] if s_['op'] in ('enc', 'dec')]}")
+    ok &= bool(r8["ok"]) and not r8["drift"]
+    # (5c) a failure with the interning panic message on a reference that has NO inline copy of its own type
+    #      earlier in the value (what a seen set keyed by the bare hash produces) is never attributed to
+    #      KF_INTERN_REF: neither with the model's prediction nor with the structural signature
+    fx = {"kind": "decode_panic", "got": "x " + INTERN_MSG, "model_fail": True, "v": 1, "step": 3, "ctors": ["IStr", "IString", "Interned", "Tuple"],
+          "ref": {"occurrence": 3, "type": "String", "inline_before": False, "same_hash_other_type_before": True}}
+    sx = {"pool": [{"t": ["Interned", "intern", ["Tuple", "eq", ["IStr", "dup"], ["IString", "intern"]]]}],
+          "ops": [{"op": "enc", "v": 1}, {"op": "restart"}, {"op": "dec", "x": {"v": 1, "pos": 1, "fail": False}}]}
+    ok &= classify(fx, known, sx) is None and classify(fx, known, twin) is None
+    fx["ref"]["inline_before"] = True
+    ok &= ("KF_INTERN_REF" not in known) or classify(fx, known, sx) == "KF_INTERN_REF"
+    print(f"selftest {PID}: a failing reference without an inline copy of its own type is not attributed to KF_INTERN_REF: {'ok' if ok else 'FAILED'}")
     print("selftest", "passed" if ok else "FAILED")
     return 0 if ok else 2
